@@ -11,8 +11,8 @@ META = dict(
                       '1-2 vibrational modes, rotational temperatures 0.01-100 K, molar mass 1-500, characteristic temperatures 50-2000 K, '
                       'spin >= 0, energies in [-100,100] eV; all symbolic reals; n_degrees 1,2,3; every documented point-group label',
                 thorough='1-3 vibrational modes; ideal-gas and harmonic presets end to end'),
-    outside_claim=['geometry-derived parameters (ASE Atoms + LAPACK eigen-solver): linearity, rotational temperatures, invariance under rigid '
-                   'motions/permutations - no encoding within reach', 'Debye: derivative relations through the integrals (only integrands, '
+    outside_claim=['geometry-derived rotational temperatures / molar mass / composition (ASE Atoms + LAPACK eigen-solver) and invariance under rigid '
+                   'motions - no encoding within reach; only the linear/nonlinear decision logic over symbolic bond angles is decided', 'Debye: derivative relations through the integrals (only integrands, '
                    'outer algebra and algebraic relations are decided)', 'LSR electronic mode (needs reaction/surface objects; its additivity is '
                    'covered through the stub-mode aggregation)', 'IEEE rounding'],
     stubs=['scipy.integrate.quad in DebyeVib -> opaque integral node keyed by the traced integrand',
@@ -429,9 +429,77 @@ def h_species(ctx, preset):
         ctx.eq('%s total = sum of the verbose contributions' % q, g('get_' + q), tot)
 
 
+# ------------------------------------------------------------------------------ geometry decision
+class StubAtoms:
+    """stands for an ASE Atoms object: only len() and get_angle(i, j, k) (angle at the middle atom,
+    degrees) are used by get_geometry_from_atoms; angles are symbolic"""
+    def __init__(self, n, angle):
+        self.n = n
+        self.angle = angle
+        self.asked = []
+
+    def __len__(self):
+        return self.n
+
+    def get_angle(self, i, j, k):
+        self.asked.append((i, j, k))
+        return self.angle[(j, frozenset((i, k)))]
+
+
+def h_linearity(ctx, n, perm):
+    """the linear / nonlinear decision depends only on whether some atom triple is non-collinear,
+    not on which triple comes first (atom order `perm`)"""
+    import itertools
+    from pmutt.statmech.rot import get_geometry_from_atoms
+    tol = 5.0
+    angle = {}
+    for tri in itertools.combinations(range(n), 3):
+        vs = []
+        for j in tri:
+            others = frozenset(x for x in tri if x != j)
+            a = ctx.real('angle_%d_at_%d' % (sum(1 << x for x in tri), j), 0, 180)
+            angle[(j, others)] = a
+            vs.append(a)
+        # geometric consistency of one triple: collinear (every angle within tol of 0 or 180) or a proper
+        # triangle (every angle farther than tol from both)
+        # (a 0.01 degree band around the tolerance is excluded: np.isclose adds rtol*180 there)
+        deg = [((v <= tol) | (v >= 180 - tol)) for v in vs]
+        prop = [((v >= tol + 0.01) & (v <= 180 - tol - 0.01)) for v in vs]
+        ctx.assume((deg[0] & deg[1] & deg[2]) | (prop[0] & prop[1] & prop[2]))
+    permuted = {}
+    for (j, oth), a in angle.items():
+        permuted[(perm[j], frozenset(perm[x] for x in oth))] = a
+    got = get_geometry_from_atoms(StubAtoms(n, permuted), degree_tol=tol)
+    some_triangle = None
+    for tri in itertools.combinations(range(n), 3):
+        v = angle[(tri[1], frozenset((tri[0], tri[2])))]
+        t = (v >= tol + 0.01) & (v <= 180 - tol - 0.01)
+        some_triangle = t if some_triangle is None else (some_triangle | t)
+    if got == 'nonlinear':
+        ctx.true('nonlinear only if some atom triple is a proper triangle', some_triangle)
+    elif got == 'linear':
+        ctx.true('linear only if every atom triple is collinear', NOT(some_triangle))
+    else:
+        ctx.fail('geometry of %d atoms is linear or nonlinear' % n)
+
+
+def h_small_geometry(ctx):
+    from pmutt.statmech.rot import get_geometry_from_atoms
+    ctx.true('one atom is monatomic', get_geometry_from_atoms(StubAtoms(1, {})) == 'monatomic')
+    ctx.true('two atoms are linear', get_geometry_from_atoms(StubAtoms(2, {})) == 'linear')
+
+
 def groups(tier):
     th = tier == 'thorough'
     g = []
+    g.append(dict(name='geometry/1-2 atoms', harness=h_small_geometry, no_validate=True))
+    import itertools as _it
+    for n in ((3, 4, 5) if th else (3, 4)):
+        perms = list(_it.permutations(range(n)))
+        pick = perms if (n == 3 or (th and n == 4)) else [perms[0], perms[-1], perms[len(perms) // 2], perms[7 % len(perms)]]
+        for pm in pick:
+            g.append(dict(name='geometry/linearity-decision/%d atoms/order=%s' % (n, ''.join(map(str, pm))), harness=h_linearity,
+                          params=dict(n=n, perm=list(pm)), no_validate=True, max_paths=3000))
     for n in (1, 2, 3):
         g.append(dict(name='FreeTrans/n%d' % n, harness=h_trans, params=dict(n=n)))
     for k in ((1, 2, 3) if th else (1, 2)):
